@@ -272,6 +272,9 @@ def handler(payload):
                 res["tz_size"] = TrustZone.get_preset_data_size(case["family"])
             except Exception:  # noqa
                 res["tz_size"] = 0
+            r = guarded(lambda: observe(m))             # settings of the loaded object (also when export refuses)
+            if r[0] == "ok":
+                res["input"] = r[1]
             r = guarded(lambda: bytes(m.export()))
             if r[0] != "ok":
                 res["export"] = list(r)
